@@ -14,7 +14,9 @@ def run(ids):
         if not os.path.isdir(d) or (ids and sid not in ids):
             continue
         meta = json.load(open(os.path.join(d, "meta.json")))
-        r = subprocess.run(["git", "-C", "/repo", "apply", os.path.join(d, "patch.diff")], capture_output=True, text=True)
+        # a patch written against an older /repo HEAD may have been rebased over later hook commits
+        pf = os.path.join(d, "patch.rebased.diff") if os.path.exists(os.path.join(d, "patch.rebased.diff")) else os.path.join(d, "patch.diff")
+        r = subprocess.run(["git", "-C", "/repo", "apply", pf], capture_output=True, text=True)
         if r.returncode != 0:
             print(sid, "patch does not apply", r.stderr[:200]); continue
         try:
